@@ -105,7 +105,7 @@ def check(run):
         last = None
         for step in range(rnd.randint(2, 6)):
             h = rnd.choice(['orig', 'copy'])
-            op = rnd.choice(['calc', 'calc', 'calc-ov', 'calc-ov', 'finish', 'compile', 'to_dict', 'write'])
+            op = rnd.choice(['calc', 'calc', 'calc-ov', 'calc-ov', 'finish', 'assemble', 'assemble', 'compile', 'to_dict', 'write'])
             live, twin = handles[h]
             ops.append((h, op))
             if last is not None and last != h:
@@ -127,6 +127,9 @@ def check(run):
                         break
                 elif op == 'finish':
                     live.finish(circular=circular); twin.finish(circular=circular)
+                elif op == 'assemble':
+                    # re-finishing without completion: ranges are assembled again, nothing is loaded
+                    live.finish(complete=False, circular=circular); twin.finish(complete=False, circular=circular)
                 elif op == 'compile' and consts and forms:
                     ins, outs = [consts[0]], [forms[0]]
                     fa, fb = live.compile(inputs=ins, outputs=outs), twin.compile(inputs=ins, outputs=outs)
@@ -196,6 +199,54 @@ def check(run):
                 kk = [x for x in c if not (a.get(x) == b.get(x) == c[x])][0]
                 run.violation('node %s is %s on the original, %s on its %s copy, %s on a never-copied twin' % (kk, a.get(kk), b.get(kk), method, c[kk]),
                               dict(case, method=method, node=kk))
+    # ---- function sweep: a model stays copyable whatever functions the process has evaluated before --------------------------------
+    # (module-level caches filled at the first call of a function are shared by all models of the process)
+    from formulas.functions import get_functions
+    P = "'[b.xlsx]S'!"
+    forms = ['=%s(1)', '=%s(1,2)', '=%s({A}A1:A2)', '=%s(1,{A}A1:A2,0)', '=%s({A}A1:A2,1)', '=%s("a")', '=%s(1,2,3)', '=%s()',
+             '=%s({A}A1:A2,{A}A1:A2)', '=%s(2,{A}A1:A2,{A}A1:A2)', '=%s("a","b")', '=%s({A}A1:A2,">1")']
+    volatile = {'NOW', 'TODAY', 'RAND', 'RANDBETWEEN'}
+    names = sorted(k for k in get_functions() if isinstance(k, str) and '.' not in k and k not in volatile)
+    rnd.shuffle(names)
+    small_d = {P + 'A1': 1, P + 'A2': 2, P + 'B1': '=%sA1+%sA2' % (P, P)}
+    small = bookrun.ExcelModel().from_dict(small_d)
+    small_vals = vals_of(small.calculate())
+    swept = 0
+    logging_off = __import__('logging').disable
+    corpus = ['MATCH', 'LOOKUP', 'VLOOKUP', 'HLOOKUP', 'FILTER']      # past failures first (fixed 74f9eac)
+    for name in ((corpus + [x for x in names if x not in corpus][:25]) if quick else names):
+        built = []
+        for f in forms:
+            d = {P + 'A1': 1, P + 'A2': 2, P + 'C1': (f % name).replace('{A}', P)}
+            try:
+                logging_off(50)
+                try:
+                    m = bookrun.ExcelModel().from_dict(d)
+                    a = vals_of(m.calculate())
+                finally:
+                    logging_off(0)
+            except Exception:
+                continue                                    # not a call this function accepts
+            built.append((d, m, a))
+            swept += 1
+        # quick: one round trip per function, after all its calls (a cache filled by any of them is still there)
+        for d, m, a in (built[-1:] if quick else built):
+            case = {'workbook': d, 'stream': 'function-sweep', 'evaluated_before': [x[0][P + 'C1'] for x in built]}
+            run.count(1, ('sweep', d[P + 'C1']), True, 'function-sweep')
+            for method in (('dill',) if quick else ('dill', 'deepcopy')):
+                try:
+                    cp = dill.loads(dill.dumps(m)) if method == 'dill' else copy.deepcopy(m)
+                    b = vals_of(cp.calculate())
+                    sm = small_vals if quick else vals_of((dill.loads(dill.dumps(small)) if method == 'dill' else copy.deepcopy(small)).calculate())
+                except Exception as ex:
+                    run.violation('after evaluating %s, %s of a model raises %s: %s' % (case['evaluated_before'] if quick else d[P + 'C1'], method, type(ex).__name__, str(ex)[:100]),
+                                  dict(case, method=method))
+                    break
+                if a != b or sm != small_vals:
+                    run.violation('after evaluating %s, the %s copy gives %s, the original %s' % (d[P + 'C1'], method, b.get(P + 'C1'), a.get(P + 'C1')),
+                                  dict(case, method=method))
+                    break
+    run.extra['function_sweep_calls'] = swept
     # known-finding witness
     try:
         dd = {"'[nofile9.xlsx]S'!A1": 2, "'[nofile9.xlsx]S'!B1": "='[nofile9.xlsx]S'!A1*2"}
